@@ -118,11 +118,14 @@ pub struct NetCfg {
     /// by (source, destination, type, how many of that type were sent before) instead of its bytes,
     /// so that fates do not depend on nonce values
     pub handshake_faults_only: bool,
+    /// handshake error frames (refusals) take this much longer than everything else (ns, range):
+    /// a refusal that arrives after the client's SYN resend has been accepted
+    pub error_delay_ns: Option<(u64, u64)>,
 }
 
 impl NetCfg {
     pub fn ideal(latency_ms: u64) -> Self {
-        Self { latency_ms, phases: Vec::new(), drop_rules: Vec::new(), handshake_faults_only: false }
+        Self { latency_ms, phases: Vec::new(), drop_rules: Vec::new(), handshake_faults_only: false, error_delay_ns: None }
     }
     pub fn fair_from_ns(&self) -> u64 {
         self.phases.last().map_or(0, |p| p.until_ns)
@@ -652,6 +655,12 @@ impl World {
             if self.keep_trace {
                 self.wire.push(WireRec { t_ns: t, src: d.src, dst: d.dst, len: d.data.len(), frame: frame.clone(), dropped, injected: false, refused });
             }
+            if let (Some((lo, hi)), Some(RFrame::Error { .. })) = (self.net.error_delay_ns, frame.as_ref()) {
+                for c in copies.iter_mut() {
+                    *c += frng.range(lo, hi);
+                    self.c.inc("refusals_delayed_past_the_next_syn_resend");
+                }
+            }
             for extra in copies {
                 self.seq += 1;
                 self.pending.push(Reverse(Pending { t_ns: t + self.net.latency_ms * MS + extra, seq: self.seq, src: d.src, dst: d.dst, data: d.data.clone(), injected: false }));
@@ -889,7 +898,10 @@ impl World {
                 }
                 if let Some(RFrame::Error { error, .. }) = r.frame {
                     self.c.inc("c07_handshake_errors_sent");
-                    if self.tracked_prev.contains(&r.dst) && !self.valid_ack_since_call.contains(&r.dst) && first.is_none() {
+                    // (an entry whose end the server reported in this very step — it read the peer's
+                    // DisconnectAck, or a timer fired — may have been gone before the SYN was handled)
+                    let ended_in_this_step = self.server.events.iter().rev().take_while(|(_, e)| e.t_ns == self.now_ns).any(|(a, e)| *a == r.dst && matches!(e.ev, Ev::Disconnect | Ev::Error(_)));
+                    if self.tracked_prev.contains(&r.dst) && !self.valid_ack_since_call.contains(&r.dst) && !ended_in_this_step && first.is_none() {
                         let established = self.server.conn_state.get(&r.dst) == Some(&1);
                         first = Some(format!("the server sent a handshake error (reason {}) to {} at t={} ms although it was tracking that address ({}) and no ACK echoing its nonce had arrived since its previous call: a repeated, stale or forged SYN from a tracked address must be ignored", error, r.dst, r.t_ns / MS, if established { "established connection" } else { "handshake in progress or connection closing" }));
                     }
@@ -1114,6 +1126,8 @@ impl World {
         if let Some(srv) = self.server.server.as_mut() {
             let _ = ep_call!(self, 11, "Server::drop", srv.drop(&addr));
         }
+        // the server no longer tracks the address: a SYN it sends from now on is a stranger's
+        self.tracked_prev.retain(|a| *a != addr);
         if existed {
             // the application ended the connection: counts as the end of this instance (C08)
             let st = *self.server.conn_state.get(&addr).unwrap_or(&0);
